@@ -484,3 +484,174 @@ Proof.
   - now apply xor_from_wf.
   - apply xor_from_prefix.
 Qed.
+
+(* ---------- torn images: a prefix of a record followed by zeros never makes the reader fail
+   with an error other than EOF / truncate, and never panics ---------- *)
+Definition uv_short (r : uv_result) : Prop := r = UvEof \/ r = UvUnexpected.
+
+(* the cut falls inside a varint: with nothing after it the read runs out of input *)
+Lemma read_uvarint_f_cut f : forall j i x acc s,
+  (j < length (put_uvarint_f f x))%nat ->
+  uv_short (read_uvarint_f f (firstn j (put_uvarint_f f x)) i acc s).
+Proof.
+  induction f as [|f IH]; intros j i x acc s Hj; cbn [put_uvarint_f length] in Hj; [lia|].
+  assert (Z: forall b l, uv_short (read_uvarint_f (S f) (firstn 0 (b :: l)) i acc s)).
+  { intros b l. cbn [firstn read_uvarint_f]. destruct (Nat.eqb i 0); [left|right]; reflexivity. }
+  cbn [put_uvarint_f] in *. destruct (x <? 128) eqn:E.
+  - cbn [length] in Hj. assert (j = 0)%nat by lia. subst j. apply Z.
+  - destruct j as [|j]; [apply Z|]. cbn [length] in Hj.
+    cbn [firstn read_uvarint_f].
+    assert (Hb: (x mod 128 + 128 <? 128) = false) by (apply N.ltb_ge; lia). rewrite Hb.
+    apply IH. lia.
+Qed.
+
+(* ... and with a zero byte after it the varint ends there, with a value not above the original *)
+Lemma read_uvarint_f_torn f : forall j i x acc r,
+  (j < length (put_uvarint_f f x))%nat ->
+  exists v, v <= x /\
+    read_uvarint_f f (firstn j (put_uvarint_f f x) ++ 0 :: r) i acc (7 * N.of_nat i)
+    = UvOk (acc + v * 2 ^ (7 * N.of_nat i)) (i + j + 1) r.
+Proof.
+  induction f as [|f IH]; intros j i x acc r Hj; cbn [put_uvarint_f length] in Hj; [lia|].
+  assert (Z: forall b l, exists v, v <= x /\
+             read_uvarint_f (S f) (firstn 0 (b :: l) ++ 0 :: r) i acc (7 * N.of_nat i)
+             = UvOk (acc + v * 2 ^ (7 * N.of_nat i)) (i + 0 + 1) r).
+  { intros b l. exists 0. split; [lia|]. cbn [firstn app read_uvarint_f].
+    change (0 <? 128) with true. change (1 <? 0) with false. rewrite andb_false_r.
+    f_equal; lia. }
+  cbn [put_uvarint_f] in *. destruct (x <? 128) eqn:E.
+  - cbn [length] in Hj. assert (j = 0)%nat by lia. subst j. apply Z.
+  - destruct j as [|j]; [apply Z|]. cbn [length] in Hj. apply N.ltb_ge in E.
+    cbn [firstn app read_uvarint_f].
+    assert (Hb: (x mod 128 + 128 <? 128) = false) by (apply N.ltb_ge; lia). rewrite Hb.
+    replace ((x mod 128 + 128) mod 128) with (x mod 128).
+    2:{ rewrite <- (N.mul_1_l 128) at 3. rewrite N.mod_add by lia. now rewrite N.mod_mod by lia. }
+    replace (7 * N.of_nat i + 7) with (7 * N.of_nat (S i)) by lia.
+    destruct (IH j (S i) (x / 128) (acc + x mod 128 * 2 ^ (7 * N.of_nat i)) r ltac:(lia)) as (v & Hv & R).
+    exists (x mod 128 + 128 * v). split.
+    + pose proof (N.div_mod' x 128). lia.
+    + rewrite R. f_equal; [|lia].
+      replace (7 * N.of_nat (S i)) with (7 * N.of_nat i + 7) by lia.
+      rewrite N.pow_add_r. change (2 ^ 7) with 128. lia.
+Qed.
+
+Lemma read_uvarint_zeros k :
+  read_uvarint (repeat 0 k) = UvEof \/ exists k', read_uvarint (repeat 0 k) = UvOk 0 1 (repeat 0 k').
+Proof. destruct k as [|k]; [left; reflexivity | right; exists k; reflexivity]. Qed.
+
+(* one varint of the header in a torn image: intact, or cut (short / ended by the zero fill) *)
+Lemma read_uvarint_torn_stage x cont j n : x < two64 ->
+  let V := put_uvarint x in
+  let B := firstn j (V ++ cont) ++ repeat 0 n in
+  (read_uvarint B = UvOk x (length V) (firstn (j - length V) cont ++ repeat 0 n))
+  \/ uv_short (read_uvarint B)
+  \/ (exists v c k, v <= x /\ read_uvarint B = UvOk v c (repeat 0 k)).
+Proof.
+  intros Hx V B. unfold B. rewrite firstn_app.
+  destruct (le_lt_dec (length V) j) as [L|L].
+  - left. rewrite firstn_all2 by exact L. rewrite <- app_assoc. unfold V. now apply read_uvarint_put.
+  - right. replace (j - length V)%nat with 0%nat by lia. cbn [firstn]. rewrite app_nil_r.
+    destruct n as [|n].
+    + left. cbn [repeat]. rewrite app_nil_r. apply read_uvarint_f_cut. exact L.
+    + right. cbn [repeat].
+      destruct (read_uvarint_f_torn 10 j 0 x 0 (repeat 0 n) L) as (v & Hv & R).
+      exists v, (0 + j + 1)%nat, n. split; [exact Hv|].
+      unfold read_uvarint, V, put_uvarint. change (7 * N.of_nat 0) with 0 in R. rewrite R.
+      f_equal. change (2 ^ 0) with 1. lia.
+Qed.
+
+Definition hdr_torn_ok (r : hdr_result) (kl vl : N) : Prop :=
+  match r with
+  | HOk h _ _ => h_klen h <= kl /\ h_vlen h <= vl
+  | HOverflow => False
+  | _ => True
+  end.
+
+(* header_read when the key length has been read and only zeros follow *)
+Lemma header_read_zeros_after_klen m u b2 v c k kl vl :
+  read_uvarint b2 = UvOk v c (repeat 0 k) -> v mod two32 <= kl ->
+  hdr_torn_ok (header_read (m :: u :: b2)) kl vl.
+Proof.
+  intros R Hv. unfold header_read. rewrite R.
+  destruct (read_uvarint_zeros k) as [E|[k1 E]]; rewrite E; [exact I|].
+  destruct (read_uvarint_zeros k1) as [E1|[k2 E1]]; rewrite E1; [exact I|].
+  cbn [hdr_torn_ok h_klen h_vlen]. split; [exact Hv|]. rewrite N.mod_0_l by (unfold two32; lia). lia.
+Qed.
+
+Lemma header_read_torn h body j n :
+  h_klen h < two32 -> h_vlen h < two32 -> h_expires h < two64 ->
+  hdr_torn_ok (header_read (firstn j (header_encode h ++ body) ++ repeat 0 n)) (h_klen h) (h_vlen h).
+Proof.
+  intros Hk Hv He. destruct h as [kl vl ex m u]. cbn [h_klen h_vlen h_expires] in *.
+  unfold header_encode. cbn [h_klen h_vlen h_expires h_meta h_umeta app].
+  assert (Z0: forall k, read_uvarint (repeat 0 k) = UvEof \/ exists k', read_uvarint (repeat 0 k) = UvOk 0 1 (repeat 0 k'))
+    by apply read_uvarint_zeros.
+  assert (ZZ: forall a b k, hdr_torn_ok (header_read (a :: b :: repeat 0 k)) kl vl).
+  { intros a b k. destruct (Z0 k) as [E|[k1 E]].
+    - unfold header_read. rewrite E. exact I.
+    - eapply header_read_zeros_after_klen; [exact E|]. rewrite N.mod_0_l by (unfold two32; lia). lia. }
+  destruct j as [|[|j]].
+  - (* nothing of the record *) cbn [firstn app].
+    destruct n as [|[|n]]; cbn [repeat]; try exact I. apply ZZ.
+  - (* only meta *) cbn [firstn app].
+    destruct n as [|n]; cbn [repeat]; [exact I|]. apply ZZ.
+  - (* meta, userMeta and j bytes of the varints / body *)
+    cbn [firstn app]. rewrite <- !app_assoc.
+    assert (Hk64: kl < two64) by (unfold two32, two64 in *; lia).
+    assert (Hv64: vl < two64) by (unfold two32, two64 in *; lia).
+    destruct (read_uvarint_torn_stage kl (put_uvarint vl ++ put_uvarint ex ++ body) j n Hk64) as [R1|[R1|R1]]; cbv zeta in R1.
+    2:{ unfold header_read. destruct R1 as [R1|R1]; rewrite R1; exact I. }
+    2:{ destruct R1 as (v & c & k & Hle & R1). eapply header_read_zeros_after_klen; [exact R1|].
+        pose proof (N.mod_le v two32 ltac:(unfold two32; lia)). lia. }
+    unfold header_read. rewrite R1.
+    destruct (read_uvarint_torn_stage vl (put_uvarint ex ++ body) (j - length (put_uvarint kl)) n Hv64) as [R2|[R2|R2]]; cbv zeta in R2.
+    2:{ destruct R2 as [R2|R2]; rewrite R2; exact I. }
+    2:{ destruct R2 as (v & c & k & Hle & R2). rewrite R2.
+        destruct (Z0 k) as [E|[k1 E]]; rewrite E; [exact I|].
+        cbn [hdr_torn_ok h_klen h_vlen]. rewrite N.mod_small by exact Hk. split; [lia|].
+        pose proof (N.mod_le v two32 ltac:(unfold two32; lia)). lia. }
+    rewrite R2.
+    destruct (read_uvarint_torn_stage ex body (j - length (put_uvarint kl) - length (put_uvarint vl)) n He) as [R3|[R3|R3]]; cbv zeta in R3.
+    + rewrite R3. cbn [hdr_torn_ok h_klen h_vlen]. rewrite !N.mod_small by assumption. lia.
+    + destruct R3 as [R3|R3]; rewrite R3; exact I.
+    + destruct R3 as (v & c & k & Hle & R3). rewrite R3.
+      cbn [hdr_torn_ok h_klen h_vlen]. rewrite !N.mod_small by assumption. lia.
+Qed.
+
+Section LogTorn.
+  Variable encrypted : bool.
+  Variable xs : bytes -> bytes -> bytes.
+  Variable base_iv : bytes.
+  Hypothesis xs_len : forall iv d, length (xs iv d) = length d.
+
+  (* C09: on a prefix of a record followed by zeros the reader returns neither an error that
+     logFile.iterate would pass on (Open fails) nor panics *)
+  Theorem safe_read_torn_no_error e off j n : wf_entry e ->
+    let r := safe_read encrypted xs base_iv (firstn j (encode_entry encrypted xs base_iv e off) ++ repeat 0 n) off in
+    r <> RdErr /\ r <> RdPanic.
+  Proof using xs_len.
+    intros W r. subst r.
+    assert (F: h_klen (entry_header e) = N.of_nat (length (e_key e)) /\
+               h_vlen (entry_header e) = N.of_nat (length (e_value e))).
+    { destruct W as (Hk & Hs & _). unfold entry_header. cbn [h_klen h_vlen].
+      rewrite !N.mod_small; auto; lia. }
+    destruct F as [Fk Fv]. destruct W as (Hk & Hs & He & _).
+    unfold safe_read, encode_entry.
+    set (img := firstn j _ ++ repeat 0 n).
+    pose proof (header_read_torn (entry_header e)
+                  (crypt encrypted xs base_iv off (e_key e ++ e_value e) ++
+                   be_enc 4 (crc32c (header_encode (entry_header e) ++ crypt encrypted xs base_iv off (e_key e ++ e_value e))))
+                  j n) as T.
+    fold img in T. rewrite Fk, Fv in T. specialize (T ltac:(lia) ltac:(lia) He).
+    destruct (header_read img) as [h hl b5| | |]; try (split; discriminate); [|contradiction].
+    cbn [hdr_torn_ok] in T. destruct T as [Tk Tv].
+    destruct (65536 <? h_klen h); [split; discriminate|].
+    rewrite N.mod_small by lia.
+    destruct (split_at b5 (h_klen h + h_vlen h)) as [[kv b6]|] eqn:S1; [|destruct b5; split; discriminate].
+    apply split_at_some in S1. destruct S1 as [_ L1].
+    destruct (split_at (crypt encrypted xs base_iv off kv) (h_klen h)) as [[k v]|] eqn:S2.
+    2:{ apply split_at_none in S2. unfold crypt in S2. destruct encrypted; [rewrite xs_len in S2|]; lia. }
+    destruct (split_at b6 4) as [[crcb b7]|]; [|destruct b6; split; discriminate].
+    destruct (be_dec crcb =? _); split; discriminate.
+  Qed.
+End LogTorn.
